@@ -30,7 +30,7 @@ class C07(ProgramProperty):
             if uncps(extra["u"]) not in us and uncps(extra["p"]) not in ps and delim not in uncps(extra["p"]):
                 recs = recs + [extra]
         probes = gen.uri_probes(rng, recs, 5) + gen.curie_probes(rng, recs, delim, 5)
-        steps = [init_step(0, recs, delim), q(0, "records"), q(0, "delimiter")]
+        steps = []
         for s in probes:
             steps += [q(0, "is_uri", s), q(0, "compress", s), q(0, "parse_uri", s), q(0, "is_curie", s),
                       q(0, "expand", s), q(0, "parse_curie", s), q(0, "parse", s, s=False), q(0, "parse", s, s=True),
@@ -38,7 +38,9 @@ class C07(ProgramProperty):
                       q(0, "compress_strict", s), q(0, "compress", s, s=True),
                       q(0, "expand_strict", s), q(0, "expand", s, s=True)]
         steps.append(q(0, "format_curie", "a", "b"))
-        return {"steps": steps, "probes": probes, "delim": delim, "tags": [f"delim={delim!r}"]}
+        steps, how = gen.build_steps(rng, recs, delim, steps)
+        _build_tag = "build=" + how
+        return {"steps": steps, "probes": probes, "delim": delim, "tags": [f"delim={delim!r}", _build_tag]}
 
     def phase2(self, case, impl):
         res = results(case, impl)
